@@ -62,7 +62,7 @@ func (vfs *OrefaFS) Chdir(dir string) error {
 		return &fs.PathError{Op: op, Path: dir, Err: vfs.err.NoSuchFile}
 	}
 
-	if !nd.mode.IsDir() {
+	if !nd.isDir {
 		err := vfs.err.NotADirectory
 		if vfs.OSType() == avfs.OsWindows {
 			err = avfs.ErrWinDirNameInvalid
@@ -357,7 +357,7 @@ func (vfs *OrefaFS) Link(oldname, newname string) error {
 		return &os.LinkError{Op: op, Old: oldname, New: newname, Err: vfs.err.NoSuchFile}
 	}
 
-	if !nParent.mode.IsDir() {
+	if !nParent.isDir {
 		return &os.LinkError{Op: op, Old: oldname, New: newname, Err: vfs.err.NotADirectory}
 	}
 
@@ -370,7 +370,7 @@ func (vfs *OrefaFS) Link(oldname, newname string) error {
 		return &os.LinkError{Op: op, Old: oldname, New: newname, Err: err}
 	}
 
-	if oChild.mode.IsDir() {
+	if oChild.isDir {
 		err := error(avfs.ErrOpNotPermitted)
 		if vfs.OSType() == avfs.OsWindows {
 			err = avfs.ErrWinAccessDenied
@@ -465,14 +465,14 @@ func (vfs *OrefaFS) Mkdir(name string, perm fs.FileMode) error {
 			parent, parentOk = vfs.nodes[dirName]
 		}
 
-		if parent.mode.IsDir() {
+		if parent.isDir {
 			return &fs.PathError{Op: op, Path: name, Err: vfs.err.NoSuchDir}
 		}
 
 		return &fs.PathError{Op: op, Path: name, Err: vfs.err.NotADirectory}
 	}
 
-	if !parent.mode.IsDir() {
+	if !parent.isDir {
 		return &fs.PathError{Op: op, Path: name, Err: vfs.err.NotADirectory}
 	}
 
@@ -498,7 +498,7 @@ func (vfs *OrefaFS) MkdirAll(path string, perm fs.FileMode) error {
 
 	child, childOk := vfs.nodes[absPath]
 	if childOk {
-		if child.mode.IsDir() {
+		if child.isDir {
 			return nil
 		}
 
@@ -516,7 +516,7 @@ func (vfs *OrefaFS) MkdirAll(path string, perm fs.FileMode) error {
 		nd, ok := vfs.nodes[dirName]
 		if ok {
 			parent = nd
-			if !parent.mode.IsDir() {
+			if !parent.isDir {
 				return &fs.PathError{Op: op, Path: dirName, Err: vfs.err.NotADirectory}
 			}
 
@@ -590,7 +590,7 @@ func (vfs *OrefaFS) OpenFile(name string, flag int, perm fs.FileMode) (avfs.File
 			return (*OrefaFile)(nil), &fs.PathError{Op: op, Path: name, Err: vfs.err.NoSuchDir}
 		}
 
-		if !parent.mode.IsDir() {
+		if !parent.isDir {
 			return (*OrefaFile)(nil), &fs.PathError{Op: op, Path: name, Err: vfs.err.NotADirectory}
 		}
 
@@ -600,7 +600,7 @@ func (vfs *OrefaFS) OpenFile(name string, flag int, perm fs.FileMode) (avfs.File
 
 		child = vfs.createFile(parent, absPath, fileName, perm)
 	} else {
-		if child.mode.IsDir() {
+		if child.isDir {
 			if om&avfs.OpenCreateExcl != 0 {
 				return (*OrefaFile)(nil), &fs.PathError{Op: op, Path: name, Err: vfs.err.FileExists}
 			}
@@ -698,7 +698,7 @@ func (vfs *OrefaFS) Remove(name string) error {
 	child.mu.Lock()
 	defer child.mu.Unlock()
 
-	if child.mode.IsDir() && len(child.children) != 0 {
+	if child.isDir && len(child.children) != 0 {
 		return &fs.PathError{Op: op, Path: name, Err: vfs.err.DirNotEmpty}
 	}
 
@@ -738,7 +738,7 @@ func (vfs *OrefaFS) RemoveAll(path string) error {
 	parent.mu.Lock()
 	defer parent.mu.Unlock()
 
-	if child.mode.IsDir() {
+	if child.isDir {
 		vfs.removeAll(absPath, child)
 	} else {
 		child.mu.Lock()
@@ -756,7 +756,7 @@ func (vfs *OrefaFS) removeAll(absPath string, rootNode *node) {
 	rootNode.mu.Lock()
 	defer rootNode.mu.Unlock()
 
-	if rootNode.mode.IsDir() {
+	if rootNode.isDir {
 		for fileName, nd := range rootNode.children {
 			path := absPath + string(vfs.PathSeparator()) + fileName
 
@@ -793,13 +793,13 @@ func (vfs *OrefaFS) Rename(oldname, newname string) error {
 		return &os.LinkError{Op: op, Old: oldname, New: newname, Err: vfs.err.NoSuchFile}
 	}
 
-	if !nParent.mode.IsDir() {
+	if !nParent.isDir {
 		return &os.LinkError{Op: op, Old: oldname, New: newname, Err: vfs.err.NotADirectory}
 	}
 
-	oIsDir := oChild.mode.IsDir()
+	oIsDir := oChild.isDir
 
-	if oIsDir && !(nChildOk && nChild.mode.IsDir()) && strings.HasPrefix(nAbsPath, oAbsPath+string(vfs.PathSeparator())) {
+	if oIsDir && !(nChildOk && nChild.isDir) && strings.HasPrefix(nAbsPath, oAbsPath+string(vfs.PathSeparator())) {
 		// A directory can't be moved to a subdirectory of itself
 		// (an existing directory as newname is reported first, see below).
 		err := vfs.err.InvalidArgument
@@ -815,7 +815,7 @@ func (vfs *OrefaFS) Rename(oldname, newname string) error {
 	}
 
 	if nChildOk {
-		nIsDir := nChild.mode.IsDir()
+		nIsDir := nChild.isDir
 
 		switch {
 		case nIsDir || oIsDir:
@@ -933,7 +933,7 @@ func (vfs *OrefaFS) stat(path, op string) (fs.FileInfo, error) {
 			return nil, &fs.PathError{Op: op, Path: path, Err: vfs.err.NoSuchDir}
 		}
 
-		if parent.mode.IsDir() {
+		if parent.isDir {
 			return nil, &fs.PathError{Op: op, Path: path, Err: vfs.err.NoSuchFile}
 		}
 
@@ -1019,7 +1019,7 @@ func (vfs *OrefaFS) Truncate(name string, size int64) error {
 		return &fs.PathError{Op: op, Path: name, Err: vfs.err.NoSuchFile}
 	}
 
-	if child.mode.IsDir() {
+	if child.isDir {
 		if vfs.OSType() == avfs.OsWindows {
 			op = "open"
 		}
